@@ -86,8 +86,9 @@ func (c *Conn) newToWriteFile(fd int, offset, remain int64) {
 func (c *Conn) releaseToWrite(t *toWrite) {
 	if t.buf != nil {
 		c.p.g.BodyAllocator.Free(t.buf)
-	}
-	if t.fd > 0 {
+	} else {
+		// a file range: its descriptor was duplicated for the queue
+		// (it can be 0 when the process runs with stdin closed).
 		_ = syscall.Close(t.fd)
 	}
 	// *t = emptyToWrite
@@ -955,7 +956,7 @@ func (c *Conn) flush() error {
 
 	for len(c.writeList) > 0 {
 		var err error
-		if c.writeList[0].fd == 0 {
+		if c.writeList[0].buf != nil {
 			err = writeBuffer()
 		} else {
 			err = writeFile()
